@@ -47,6 +47,7 @@ type VC struct {
 	uf       map[string]bool // declared uninterpreted functions
 	quiet    bool            // suppress obligations (spec-side pure evaluation)
 	inQuant  int             // >0 while evaluating a quantifier body
+	defs     map[string]string
 	curPos   token.Pos
 }
 
@@ -93,8 +94,15 @@ func (vc *VC) define(prefix, sort string, t Term) Term {
 	if len(t) < 40 || vc.inQuant > 0 {
 		return t
 	}
+	if vc.defs == nil {
+		vc.defs = map[string]string{}
+	}
+	if n, ok := vc.defs[t]; ok {
+		return n
+	}
 	n := vc.fresh(prefix, sort)
 	vc.assumes = append(vc.assumes, tEq(n, t))
+	vc.defs[t] = n
 	return n
 }
 
@@ -160,9 +168,11 @@ func (vc *VC) literalDecls() []string {
 	}
 	sort.Strings(lits)
 	for _, s := range lits {
+		out = append(out, fmt.Sprintf("(declare-const %s Str) ; %q", vc.strLits[s], s))
+	}
+	for _, s := range lits {
 		n := vc.strLits[s]
 		names = append(names, n)
-		out = append(out, fmt.Sprintf("(declare-const %s Str) ; %q", n, s))
 		out = append(out, fmt.Sprintf("(assert (= (slen %s) %d))", n, len(s)))
 		if len(s) <= 48 {
 			for i := 0; i < len(s); i++ {
@@ -419,12 +429,12 @@ func (vc *VC) heapKey(k Kind) string {
 }
 
 func (vc *VC) allocKey() string {
-	vc.ensureKey("alloc", "(Array Int Bool)")
+	vc.ensureKey("alloc", "Int") // next unallocated reference (objects are numbered in allocation order)
 	return "alloc"
 }
 
 func (vc *VC) isAlloc(st *State, ref Term) Term {
-	return tOr(tLt(ref, "0"), tSel(vc.get(st, vc.allocKey()), ref))
+	return tOr(tLt(ref, "0"), tAnd(tLt("0", ref), tLt(ref, vc.get(st, vc.allocKey()))))
 }
 
 func (vc *VC) loadAt(st *State, ref, off Term, t types.Type) Val {
@@ -483,16 +493,17 @@ func (vc *VC) freshVal(prefix string, t types.Type) Val {
 	return v
 }
 
-// newObject allocates a fresh zeroed object; returns its ref.
+// newObject allocates a fresh zeroed object; returns its ref.  References are
+// numbered in allocation order: the new object is the next free number.
 func (vc *VC) newObject(st *State, prefix string, dyn types.Type, kinds []Kind) Term {
-	r := vc.fresh("ref."+prefix, "Int")
 	ak := vc.allocKey()
 	a := vc.get(st, ak)
-	vc.assume(st, tAnd(tLt("0", r), tNot(tSel(a, r))))
+	r := vc.fresh("ref."+prefix, "Int")
+	vc.assume(st, tEq(r, a))
 	if dyn != nil {
 		vc.assume(st, tEq(sx("dtype", r), tInt(int64(vc.p.typeID(dyn)))))
 	}
-	vc.set(st, ak, tSto(a, r, tTrue))
+	vc.set(st, ak, tAdd(r, "1"))
 	seen := map[Kind]bool{}
 	for _, k := range kinds {
 		if seen[k] {
